@@ -44,11 +44,21 @@ func (s *Status) UnmarshalText(b []byte) error {
 
 	parts := strings.SplitN(string(b), " ", 3)
 	if len(parts) != 3 {
-		return fmt.Errorf("webdav: invalid HTTP status %q: expected 3 fields", s)
+		return fmt.Errorf("webdav: invalid HTTP status %q: expected 3 fields", string(b))
 	}
-	code, err := strconv.Atoi(parts[1])
-	if err != nil {
-		return fmt.Errorf("webdav: invalid HTTP status %q: failed to parse code: %v", s, err)
+	if _, _, ok := http.ParseHTTPVersion(parts[0]); !ok {
+		return fmt.Errorf("webdav: invalid HTTP status %q: invalid HTTP version", string(b))
+	}
+	// The status code is exactly three digits (no sign, no padding)
+	if len(parts[1]) != 3 {
+		return fmt.Errorf("webdav: invalid HTTP status %q: expected a three-digit code", string(b))
+	}
+	code := 0
+	for _, c := range []byte(parts[1]) {
+		if c < '0' || c > '9' {
+			return fmt.Errorf("webdav: invalid HTTP status %q: expected a three-digit code", string(b))
+		}
+		code = code*10 + int(c-'0')
 	}
 
 	s.Code = code
